@@ -193,8 +193,16 @@ def potential_body(c):
         lines.append("Definition model := Eval vm_compute in (flat_map (fun cf => flat_map (fun pt => "
                      "let v := %s CQops g s qd kr supp cq_dist %s (xfull cf) pt in [vx v; vy v; vz v]) pts) coefs)."
                      % (fn, ik))
+    lc = c.get("loc")
+    if lc is not None and not c["requires_dt"]:
+        lines.append("Definition loc_ok : bool := localised_ok s supp %s %s %s %s %s." % (
+            nat(lc["nE"]), lst(lst(nat(x) for x in r) for r in lc["l2g"]),
+            lst(lst(cr(x) for x in r) for r in lc["mult"]), lst(cr(x) for x in lc["nmult"]), nats(lc["supp"])))
+    else:
+        lines.append("Definition loc_ok : bool := true.")
     lines += ["Definition impl : list CQ := %s." % clist(c["impl"]),
-              "Eval vm_compute in (cmp_list %s model impl)." % tol_of(c["scale"]),
+              "Eval vm_compute in (cmp_list %s model impl ++ (if loc_ok then [] else [777777%%nat]))."
+              % tol_of(c["scale"]),
               "Eval vm_compute in (count_nonzero model).", ""]
     return POT_HEADER + "\n".join(lines)
 
@@ -216,8 +224,10 @@ def judge_cases(ctx, cases, outs, prefix, what, per_case_evals):
         ctx.corr["distinct_nontrivial"] += nz[0]
         if fails[0]:
             ctx.corr["disagreements"] += len(fails[0])
-            ctx.problem("correspondence", "%s: bempp-cl differs from the model on %s at output positions %s"
-                        % (what, c["name"], fails[0][:8]))
+            extra = " (777777 = the localised space does not inherit support / normal multipliers / numbering)" \
+                if 777777 in fails[0] else ""
+            ctx.problem("correspondence", "%s: bempp-cl differs from the model on %s at output positions %s%s"
+                        % (what, c["name"], fails[0][:8], extra))
 
 
 # ---- overlap the (quick) failing-input search with the correspondence -------------------------------------
